@@ -389,3 +389,118 @@ func Silence() func() {
 	}
 	return func() {}
 }
+
+// ---------------------------------------------------------------- segment streams with arbitrary geometry
+
+// Seg is a raw 2D segment x0, y0, x1, y1.  Unlike Line(id) the geometry is free: segments may
+// share end points, be collinear, overlap, repeat or have zero length; their identity is
+// their position in the stream.
+type Seg [4]float64
+
+func (s Seg) Line2() *sdf.Line2 { return &sdf.Line2{{X: s[0], Y: s[1]}, {X: s[2], Y: s[3]}} }
+func segOf(a, b v2.Vec) Seg     { return Seg{a.X, a.Y, b.X, b.Y} }
+
+// GeoScript2 is a render.Render2 writing the given segments, in order, in Writes of the given
+// sizes (what is left over goes into one last Write), from the calling goroutine.
+type GeoScript2 struct {
+	Segs   []Seg
+	Writes []int
+}
+
+func (r *GeoScript2) Info(sdf.SDF2) string { return "scripted segments" }
+func (r *GeoScript2) Render(_ sdf.SDF2, out sdf.Line2Writer) {
+	next := 0
+	write := func(n int) {
+		if n > len(r.Segs)-next {
+			n = len(r.Segs) - next
+		}
+		var b []*sdf.Line2
+		for i := 0; i < n; i++ {
+			b = append(b, r.Segs[next].Line2())
+			next++
+		}
+		out.Write(b)
+	}
+	for _, n := range r.Writes {
+		write(n)
+	}
+	if next < len(r.Segs) {
+		write(len(r.Segs) - next)
+	}
+	out.Close()
+}
+
+// DirectSegs2 runs the renderer through the REAL sdf.NewLine2Buffer into a channel owned by
+// the caller and returns the batches as raw segments.
+func DirectSegs2(r render.Render2) (batches [][]Seg) {
+	c := make(chan []*sdf.Line2)
+	done := make(chan struct{})
+	go func() {
+		for ls := range c {
+			b := make([]Seg, 0, len(ls))
+			for _, l := range ls {
+				b = append(b, segOf(l[0], l[1]))
+			}
+			batches = append(batches, b)
+		}
+		close(done)
+	}()
+	r.Render(nil, sdf.NewLine2Buffer(c))
+	close(c)
+	<-done
+	return
+}
+
+// DecodeDXFSegs reads the LINE entities of a DXF file as raw segments.
+func DecodeDXFSegs(path string) (segs []Seg, err error) {
+	d, err := dxf.FromFile(path)
+	if err != nil {
+		return nil, err
+	}
+	for _, e := range d.Entities() {
+		l, ok := e.(*entity.Line)
+		if !ok {
+			continue
+		}
+		if l.Start[2] != 0 || l.End[2] != 0 {
+			return nil, fmt.Errorf("dxf: LINE with z != 0")
+		}
+		segs = append(segs, Seg{l.Start[0], l.Start[1], l.End[0], l.End[1]})
+	}
+	return segs, nil
+}
+
+// DecodeSVGSegs reads the <line> elements of an SVG file and undoes writeSVG's shift
+// (x' = x - minX, y' = maxY - y).
+func DecodeSVGSegs(path string, minX, maxY float64) (segs []Seg, err error) {
+	b, err := os.ReadFile(path)
+	if err != nil {
+		return nil, err
+	}
+	var doc svgDoc
+	if err = xml.Unmarshal(b, &doc); err != nil {
+		return nil, err
+	}
+	for _, l := range doc.Lines {
+		var v [4]float64
+		for i, s := range []string{l.X1, l.Y1, l.X2, l.Y2} {
+			if v[i], err = strconv.ParseFloat(s, 64); err != nil {
+				return nil, err
+			}
+		}
+		segs = append(segs, Seg{v[0] + minX, maxY - v[1], v[2] + minX, maxY - v[3]})
+	}
+	return segs, nil
+}
+
+// BoundsSegs returns min X and max Y over all end points (what writeSVG computes).
+func BoundsSegs(segs []Seg) (minX, maxY float64) {
+	for i, s := range segs {
+		if i == 0 {
+			minX, maxY = s[0], s[1]
+		}
+		minX = math.Min(minX, math.Min(s[0], s[2]))
+		maxY = math.Max(maxY, math.Max(s[1], s[3]))
+	}
+	return
+}
